@@ -30,6 +30,17 @@ class WN(Component):    # a block writes a slice, a net drives another slice
     def upA(): s.x[0:1] @= s.in_[0:1]
     @update
     def upO(): s.out @= s.x
+class W2R(Component):   # a block that only READS a third slice is declared before the two writers
+  def construct(s, n=16):
+    s.in_ = InPort(n); s.x = Wire(n); s.out = OutPort(n); s.r = OutPort(1)
+    @update
+    def upR(): s.r @= s.x[2:3]
+    @update
+    def upA(): s.x[0:1] @= s.in_[0:1]
+    @update
+    def upB(): s.x[1:2] @= s.in_[1:2]
+    @update
+    def upO(): s.out @= s.x
 class WW(Component):    # a block writes the whole signal, another a slice of it
   def construct(s, n=16):
     s.in_ = InPort(n); s.x = Wire(n); s.out = OutPort(n)
